@@ -36,7 +36,7 @@ STRUCTURAL = [
 ]
 
 NOT_COVERED = [
-    "numerical identity-preconditioning (claimed only structurally through C02's axis-provenance obligations)",
+    "identity preconditioning is proved at small concrete shapes (rank 1..4, with and without blocks, 3 preconditioner types), entries symbolic",
     "partition/merge_partitions round trip for a symbolic NUMBER of blocks (S5); proved for 1..3 blocks per axis with symbolic dims, bounded stand-in beyond",
     "termination of the loops",
 ]
@@ -288,6 +288,25 @@ def mk_partition_order(rank, blocks):
   return t
 
 
+def mk_identity(shape, block_size, ptype_name):
+  """'preconditioning with identity matrices returns the gradient unchanged': the real preconditioned_grad (partition,
+  per-block axis application incl. the roll of non-preconditioned axes, merge) on a tensor with symbolic entries and
+  identity preconditioners of the announced shapes - pointwise equality at every index (small concrete dims)."""
+
+  def t(ctx, it):
+    m = it.load_module(DS)
+    g = T.opaque("g", shape)
+    pre = m.Preconditioner(g, block_size, 4096, False, m.PreconditionerType[ptype_name], 0)
+    eyes = [T.eye(int(sym.concrete_int(a))) for a, _ in pre.shapes_for_preconditioners()]
+    out = pre.preconditioned_grad(g, eyes)
+    ctx.oblige("Preconditioner.preconditioned_grad.post.shape", tuple(int(sym.concrete_int(d)) for d in out.shape) == tuple(shape))
+    for idx in itertools.product(*[range(d) for d in shape]):
+      ctx.oblige("Preconditioner.preconditioned_grad.post.identity preconditioners return the gradient unchanged (every entry in place)",
+                 out.at(idx) == g.at(idx), detail=f"shape={shape} block_size={block_size} type={ptype_name} index={idx}")
+
+  return t
+
+
 # ---------------------------------------------------------------- P4 tearfree reshaper
 def skolem_index(ctx, shape, name="i"):
   idx = []
@@ -479,6 +498,9 @@ def tasks(tier):
   ts.append(Task("tearfree.shampoo._split_exclusively", t_split_exclusively))
   for r in range(0, 6):
     ts.append(Task(f"BlockPartitioner.__init__[rank={r}]", mk_partitioner(r)))
+  for shp, bs in (((3,), 0), ((3, 2), 0), ((2, 3, 2), 0), ((2, 1, 2), 0), ((3, 2, 4), 0), ((4, 3), 2), ((2, 3, 4), 2), ((2, 2, 2, 2), 0)):
+    for pt in ("ALL", "INPUT", "OUTPUT"):
+      ts.append(Task(f"identity preconditioning[shape={shp},block={bs},{pt}]", mk_identity(shp, bs, pt)))
   for blocks in ((1,), (3,), (2, 1), (1, 2), (2, 3), (3, 2), (2, 1, 2), (2, 2, 2)):
     ts.append(Task(f"BlockPartitioner.partition order[blocks={blocks}]", mk_partition_order(len(blocks), blocks)))
   for r in range(1, 4):
